@@ -4,8 +4,10 @@ package harness
 
 import (
 	"bytes"
+	"context"
 	"fmt"
 	"github.com/ipfs/go-unixfsnode/file"
+	"github.com/ipfs/go-unixfsnode/hamt"
 	"reflect"
 	"testing"
 
@@ -161,6 +163,7 @@ func c14OneNode(t *rapid.T, st *Store, ls *ipld.LinkSystem, ev *Evid) *c14Kept {
 	}
 	typ := uint64(99)
 	valid := true
+	shardParamsAnyway := false
 	switch class {
 	case "pb-nodata":
 	case "pb-garbage":
@@ -207,8 +210,20 @@ func c14OneNode(t *rapid.T, st *Store, ls *ipld.LinkSystem, ev *Evid) *c14Kept {
 				}
 			}
 			valid = c14ValidShard(u)
-		} else if rapid.Bool().Draw(t, "hasInnerData") {
-			u.HasData, u.Data = true, rapid.SliceOfN(rapid.Byte(), 0, 9).Draw(t, "inner")
+		} else {
+			if rapid.Bool().Draw(t, "hasInnerData") {
+				u.HasData, u.Data = true, rapid.SliceOfN(rapid.Byte(), 0, 9).Draw(t, "inner")
+			}
+			if rapid.IntRange(0, 3).Draw(t, "shardParamsAnyway") == 0 {
+				// a writer that fills the shard parameters into every node it writes: a complete, valid set (hash type,
+				// fanout, data short enough to pass for a bitfield) on a node whose type says it is something else
+				f := rapid.SampledFrom([]uint64{8, 16, 256, 1024}).Draw(t, "otherFanout")
+				if uint64(len(u.Data)) > f/8 {
+					f = 1024
+				}
+				u.HashType, u.Fanout = u64p(0x22), u64p(f)
+				shardParamsAnyway = true
+			}
 		}
 		m.UFS = u
 	}
@@ -243,6 +258,18 @@ func c14OneNode(t *rapid.T, st *Store, ls *ipld.LinkSystem, ev *Evid) *c14Kept {
 	var rn datamodel.Node
 	must(t, "reify "+class, func() { rn, err = reify(pn) })
 	desc := fmt.Sprintf("%s of %s type=%d links=%d valid=%v", reifier, class, typ, nl, valid)
+	if shardParamsAnyway {
+		desc += " (carrying a valid set of shard parameters)"
+	}
+	// the sharded-directory constructor that takes a general dag-pb node is type-directed too: a shard for a valid shard
+	// node, an error for everything else
+	{
+		var herr error
+		must(t, "AttemptHAMTShardFromNode", func() { _, herr = hamt.AttemptHAMTShardFromNode(context.Background(), pn, rls) })
+		if wantShard := class == "pb-unixfs" && typ == 5 && valid; wantShard != (herr == nil) {
+			t.Fatalf("C14: %s: hamt.AttemptHAMTShardFromNode on the same dag-pb node returned err=%v; a sharded directory is wanted from it: %v", desc, herr, wantShard)
+		}
+	}
 	wantErr := class == "pb-unixfs" && (typ > 5 || (typ == 5 && !valid))
 	if wantErr {
 		if err == nil {
